@@ -785,3 +785,102 @@ func init() {
 		Doc: "one layout pass (compile.Instructions.Pass): inside the loop over the instructions SetPos comes before Resolve and Resolve before Size — the address advances by the size the instruction has after its jump was resolved",
 		Run: runPassOrder})
 }
+
+// ---- C16.R8: the MRO lookup is a pure walk ----
+//
+// Type.Lookup walks the type's current MRO and answers the first dictionary hit. It keeps nothing between calls:
+// a remembered answer would have to be dropped in every subclass whenever any class on their MROs changes, and
+// the type has no list of its subclasses. Decided on the statements of Lookup (helpers put back): a range loop over
+// the receiver's Mro, and no assignment to anything but the function's own locals.
+func runLookupPure(c *Ctx, r *Rep) {
+	p := c.MustPkg("py")
+	info := p.TypesInfo
+	fd := c.MethodDeclX("py", "Type", "Lookup")
+	if fd == nil || fd.Body == nil {
+		r.undecided("lookup|(*py.Type).Lookup", token.NoPos, "method not found")
+		return
+	}
+	r.analysed("(*py.Type).Lookup")
+	var recv types.Object
+	if fd.Recv != nil && len(fd.Recv.List) == 1 && len(fd.Recv.List[0].Names) == 1 {
+		recv = info.Defs[fd.Recv.List[0].Names[0]]
+	}
+	// (a) walks the MRO
+	walks := false
+	mroAlias := map[types.Object]bool{}
+	ast.Inspect(fd.Body, func(n ast.Node) bool {
+		switch x := n.(type) {
+		case *ast.AssignStmt:
+			for i, rh := range x.Rhs {
+				if sel, ok := unparen(rh).(*ast.SelectorExpr); ok && sel.Sel.Name == "Mro" && i < len(x.Lhs) {
+					if id := identOf(x.Lhs[i]); id != nil {
+						if o := info.Defs[id]; o != nil {
+							mroAlias[o] = true
+						}
+					}
+				}
+			}
+		case *ast.RangeStmt:
+			switch y := unparen(x.X).(type) {
+			case *ast.SelectorExpr:
+				if y.Sel.Name == "Mro" {
+					if id := identOf(y.X); id != nil && info.Uses[id] == recv {
+						walks = true
+					}
+				}
+			case *ast.Ident:
+				if mroAlias[info.Uses[y]] {
+					walks = true
+				}
+			}
+		}
+		return true
+	})
+	r.check(walks, "lookup|walks the MRO", fd.Pos(), "Lookup ranges over the receiver's Mro",
+		"Lookup does not range over the type's own Mro: an attribute is no longer looked for in the classes of the method resolution order, in that order")
+	// (b) writes nothing but locals
+	var bad ast.Node
+	what := ""
+	isLocal := func(e ast.Expr) bool {
+		id := identOf(e)
+		if id == nil {
+			return false
+		}
+		o := info.Uses[id]
+		if o == nil {
+			o = info.Defs[id]
+		}
+		v, ok := o.(*types.Var)
+		return ok && !v.IsField() && v.Pkg() != nil && v.Parent() != v.Pkg().Scope() && o != recv
+	}
+	ast.Inspect(fd.Body, func(n ast.Node) bool {
+		switch x := n.(type) {
+		case *ast.AssignStmt:
+			for _, l := range x.Lhs {
+				if id := identOf(l); id != nil && id.Name == "_" {
+					continue
+				}
+				if !isLocal(l) && bad == nil {
+					bad, what = x, exprStr(l)
+				}
+			}
+		case *ast.IncDecStmt:
+			if !isLocal(x.X) && bad == nil {
+				bad, what = x, exprStr(x.X)
+			}
+		}
+		return true
+	})
+	pos := fd.Pos()
+	if bad != nil {
+		pos = bad.Pos()
+	}
+	r.check(bad == nil, "lookup|keeps nothing between calls", pos, "Lookup assigns only its own locals",
+		"Lookup assigns `"+what+"`: an answer remembered in the type (or anywhere outside the call) is not dropped when a base class changes later — a subclass has no way to be told — so attribute lookup can return a definition that is no longer the first on the MRO")
+}
+
+func init() {
+	register(&Rule{ID: "C16.R8", Prop: "C16", Floor: 2,
+		Doc: "the MRO lookup (py.Type.Lookup, helpers put back) ranges over the receiver's Mro and assigns nothing but its own locals: nothing is memoised across calls (a cache would need invalidation in every subclass, which the type does not track)",
+		Run: runLookupPure})
+}
